@@ -233,11 +233,10 @@ struct RunOut {
     violation: Option<(Trace, Fault, Violation)>,
 }
 
-fn one_run(world: &World, seed: u64, run: u64, tier: Tier, known: &[Known], st: &mut Stats) -> RunOut {
-    let t = generate(world, seed, run);
+fn one_run(world: &World, t: Trace, tier: Tier, known: &[Known], st: &mut Stats) -> RunOut {
     if let Err(m) = validate(&world.table, &t) {
         // generator bug: a harness error, never a property violation
-        eprintln!("harness error: generated trace invalid (seed {} run {}): {}", seed, run, m);
+        eprintln!("harness error: generated trace invalid (seed {} run {}): {}", t.seed, t.run, m);
         std::process::exit(2);
     }
     st.histories += 1;
@@ -339,7 +338,7 @@ struct Batch {
     capped: bool,
 }
 
-fn run_batch(world: &World, seed: u64, runs: u64, workers: usize, tier: Tier, known: &[Known], keep_digests: bool, cap_s: f64) -> Batch {
+fn run_batch(world: &World, source: &(dyn Fn(u64) -> Trace + Sync), runs: u64, workers: usize, tier: Tier, known: &[Known], keep_digests: bool, cap_s: f64) -> Batch {
     // digest collection (determinism self-test) runs every index to the end, violation or not
     let stop_on_violation = !keep_digests;
     let first_bad = AtomicU64::new(u64::MAX);
@@ -365,7 +364,7 @@ fn run_batch(world: &World, seed: u64, runs: u64, workers: usize, tier: Tier, kn
                         capped.store(true, Ordering::Relaxed);
                         break;
                     }
-                    let out = one_run(world, seed, run, tier, known, &mut st);
+                    let out = one_run(world, source(run), tier, known, &mut st);
                     done += 1;
                     if keep_digests {
                         digs.push((run, out.digest));
@@ -566,7 +565,7 @@ fn parse_args() -> Args {
 }
 
 fn digests_of(world: &World, seed: u64, runs: u64, workers: usize, tier: Tier) -> Vec<(u64, u64)> {
-    run_batch(world, seed, runs, workers, tier, &[], true, 1e9).digests
+    run_batch(world, &|r| generate(world, seed, r), runs, workers, tier, &[], true, 1e9).digests
 }
 
 fn spawn_digests(bin: &str, seed: u64, runs: u64, workers: usize) -> Result<Vec<(u64, u64)>, String> {
@@ -641,7 +640,7 @@ fn cmd_run(world: &World, args: &Args) -> i32 {
     };
     let (tier_name, default_runs, default_cap) = match args.tier {
         Tier::Quick => ("quick", 200_000u64, 600.0),
-        Tier::Thorough => ("thorough", 4_000_000u64, 3000.0),
+        Tier::Thorough => ("thorough", 2_000_000u64, 2400.0),
     };
     let runs = args.runs.unwrap_or(default_runs);
     let cap = if args.cap_s > 0.0 { args.cap_s } else { default_cap };
@@ -697,7 +696,40 @@ fn cmd_run(world: &World, args: &Args) -> i32 {
         return 2;
     }
 
-    let batch = run_batch(world, args.seed, runs, args.workers, args.tier, &known, false, cap);
+    let seed = args.seed;
+    let mut batch = run_batch(world, &|r| generate(world, seed, r), runs, args.workers, args.tier, &known, false, cap);
+    // exhaustive value sweep of the narrow families (deterministic, PRNG-free): quick = all 8-bit
+    // layouts x 256 patterns, thorough = also all 16-bit layouts x 65536 patterns
+    let space = gen::sweep_space(world, args.tier == Tier::Thorough);
+    let mut offsets = Vec::new();
+    let mut total = 0u64;
+    for (l, n) in &space {
+        offsets.push((total, *l, *n));
+        total += *n as u64;
+    }
+    let mut sweep = json!(null);
+    if batch.violation.is_none() {
+        let src = |idx: u64| -> Trace {
+            let k = match offsets.binary_search_by(|(o, _, _)| o.cmp(&idx)) {
+                Ok(k) => k,
+                Err(k) => k - 1,
+            };
+            let (o, l, _) = offsets[k];
+            gen::sweep_trace(world, l, (idx - o) as u32, idx)
+        };
+        let sb = run_batch(world, &src, total, args.workers, args.tier, &known, false, cap);
+        sweep = json!({
+            "layouts": space.len(), "widths": if args.tier == Tier::Thorough { json!([8, 16]) } else { json!([8]) },
+            "bit_patterns_per_layout": "all 2^width", "histories": sb.stats.histories, "executions": sb.stats.executions,
+            "complete": sb.completed == total && !sb.capped && sb.violation.is_none(),
+            "what": "every bit pattern of every listed layout: encode_to -> model bytes and integer-twin bytes, decode -> same bits, every strict prefix fails, byte-view algebra, plus a second record whose writer/reader/reader layout rotate with the value",
+        });
+        let v = sb.violation;
+        batch.stats.merge(sb.stats);
+        batch.completed += sb.completed;
+        batch.capped |= sb.capped;
+        batch.violation = v;
+    }
     let st = &batch.stats;
     let wall = t0.elapsed().as_secs_f64();
 
@@ -788,6 +820,7 @@ fn cmd_run(world: &World, args: &Args) -> i32 {
             "rule": "one evaluation = one execution of a (history, fault) pair: a seeded history of 1..8 encode/decode records over the 506 layouts (plus an optional serde op) written through the simulated codec::Output and read back through the simulated codec::Input under exactly one fault. Per history every truncation offset is enumerated (thorough tier: also every I/O-error offset and every bit flip), other faults are drawn from the run's PRNG. Distinct = distinct history digests (layouts, shapes, writers, readers, values, input mode, serde op) x distinct fault of that history; non-trivial = the fault actually fired inside a record that a reader then asked for, or (fault-free pass) the history contains a value whose little- and big-endian byte strings differ. Counted with a map keyed by history digest; a history reached twice is counted once.",
             "samples": samples,
             "exhaustive": false,
+            "exhaustive_value_sweep": sweep,
             "histories": st.histories,
             "distinct_histories": distinct_histories,
             "histories_requested": runs,
